@@ -217,3 +217,12 @@ def magic(ctx):
     imp = m.imports.get('MAGIC_SCOOL')
     ctx.check(imp is not None and ctx.repo.resolve(imp[1]).endswith('MAGIC_SCOOL'), R, 'recogniser-uses-writer-constant', found=imp,
               expected='fileops imports MAGIC_SCOOL from cooler.create', reason='writer and recogniser agree on the magic by construction')
+
+
+_run_core = run
+
+
+def run(ctx):
+    _run_core(ctx)
+    from . import refs_misc
+    refs_misc.run_for(ctx, 'C17')
